@@ -40,9 +40,9 @@ def explore(universe, variant, depth, simulate=None, workers=2, emitidx=True, sd
 
 
 def run(prop, level, rule, plans, tags=None, keys=("plain",), modes=("compiled",), hashseeds=(0,), nshards=8, queries=True,
-        extra_assume=(), episodes=0, cross_config=False):
+        extra_assume=(), episodes=0, cross_config=False, verdict=None, finish=True):
     """plans: list of dict(universe, variant, depth, simulate=None|N).  Returns exit code."""
-    v = Verdict(prop, level, get_tier(), rule)
+    v = verdict or Verdict(prop, level, get_tier(), rule)
     tags = tags or [prop]
     scratch = {m: build.build(m) for m in modes}
     tot_states = tot_trans = 0
@@ -104,4 +104,4 @@ def run(prop, level, rule, plans, tags=None, keys=("plain",), modes=("compiled",
     v.assume("Manager.tla is the reference; its universes are small (4-6 leaves, menus of 14-21 expressions)",
              "a transition is covered by replaying the BFS path to its source and then the transition on a fresh Manager",
              *extra_assume)
-    return v.finish()
+    return v.finish() if finish else v
